@@ -111,6 +111,79 @@ func stringExprDesc(v ssa.Value) string {
 	return "?"
 }
 
+// c17Term is the symbolic form of a string expression: raw file bytes, constants and library calls; calls of
+// repository functions whose single return is such an expression over their parameters are expanded in place.
+type c17Term struct {
+	op   string
+	cst  string
+	args []*c17Term
+	top  *ssa.Call // the instruction in the outermost function at which this term is computed
+}
+
+func c17TermOf(v ssa.Value, bind map[*ssa.Parameter]*c17Term, isRaw func(ssa.Value) bool, depth int) *c17Term {
+	if depth > 4 {
+		return nil
+	}
+	v = stripConv(v)
+	if isRaw(v) {
+		return &c17Term{op: "raw"}
+	}
+	if cs, ok := ConstString(v); ok {
+		return &c17Term{op: "const", cst: cs}
+	}
+	if prm, ok := v.(*ssa.Parameter); ok {
+		return bind[prm]
+	}
+	call, ok := v.(*ssa.Call)
+	if !ok {
+		return nil
+	}
+	if o := CalleeObj(&call.Call); o != nil && o.Pkg() != nil && (o.Pkg().Path() == "strings" || o.Pkg().Path() == "os") {
+		t := &c17Term{op: o.Pkg().Path() + "." + o.Name(), top: call}
+		for _, a := range call.Call.Args {
+			t.args = append(t.args, c17TermOf(a, bind, isRaw, depth))
+		}
+		return t
+	}
+	callee := call.Call.StaticCallee()
+	if callee == nil || len(callee.Blocks) == 0 {
+		return nil
+	}
+	var rets []*ssa.Return
+	AllInstrs(callee, func(in ssa.Instruction) {
+		if r, ok := in.(*ssa.Return); ok {
+			rets = append(rets, r)
+		}
+	})
+	if len(rets) != 1 || len(rets[0].Results) != 1 {
+		return nil
+	}
+	nb := map[*ssa.Parameter]*c17Term{}
+	args := call.Call.Args
+	for i, prm := range callee.Params {
+		if i < len(args) {
+			nb[prm] = c17TermOf(args[i], bind, isRaw, depth)
+		}
+	}
+	t := c17TermOf(rets[0].Results[0], nb, isRaw, depth+1)
+	if t != nil {
+		setTop(t, call)
+	}
+	return t
+}
+
+func setTop(t *c17Term, call *ssa.Call) {
+	if t == nil {
+		return
+	}
+	if t.top != nil {
+		t.top = call
+	}
+	for _, a := range t.args {
+		setTop(a, call)
+	}
+}
+
 func runC17(c *Ctx) {
 	p := c.P
 	s := p.Selectors()
@@ -145,17 +218,6 @@ func runC17(c *Ctx) {
 			}
 			return false
 		}
-		strCall := func(v ssa.Value, pkg, name string) *ssa.Call {
-			call, ok := stripConv(v).(*ssa.Call)
-			if !ok {
-				return nil
-			}
-			o := CalleeObj(&call.Call)
-			if o == nil || o.Pkg() == nil || o.Pkg().Path() != pkg || o.Name() != name {
-				return nil
-			}
-			return call
-		}
 		var expanded, rawParse, expandCall *ssa.Call
 		for _, u := range unm {
 			arg := stripConv(u.Call.Args[0])
@@ -163,26 +225,33 @@ func runC17(c *Ctx) {
 				rawParse = u
 				continue
 			}
-			// []byte(temp)
-			outer := strCall(arg, "strings", "ReplaceAll")
-			if outer == nil {
+			// []byte(temp), where temp may be computed in place or in a helper returning the expression
+			t := c17TermOf(arg, nil, isRaw, 0)
+			if t == nil || t.op != "strings.ReplaceAll" || len(t.args) != 3 {
 				continue
 			}
-			mid := strCall(outer.Call.Args[0], "os", "ExpandEnv")
-			if mid == nil {
+			mid := t.args[0]
+			if mid == nil || mid.op != "os.ExpandEnv" || len(mid.args) != 1 {
 				continue
 			}
-			inner := strCall(mid.Call.Args[0], "strings", "ReplaceAll")
-			if inner == nil {
+			inner := mid.args[0]
+			if inner == nil || inner.op != "strings.ReplaceAll" || len(inner.args) != 3 {
 				continue
 			}
-			s1, ok1 := ConstString(inner.Call.Args[1])
-			sen1, ok2 := ConstString(inner.Call.Args[2])
-			sen2, ok3 := ConstString(outer.Call.Args[1])
-			s2, ok4 := ConstString(outer.Call.Args[2])
-			if ok1 && ok2 && ok3 && ok4 && s1 == "$$" && s2 == "$" && sen1 == sen2 && sen1 != "" && !strings.Contains(sen1, "$") && isRaw(inner.Call.Args[0]) {
+			cs := func(x *c17Term) (string, bool) {
+				if x == nil || x.op != "const" {
+					return "", false
+				}
+				return x.cst, true
+			}
+			s1, ok1 := cs(inner.args[1])
+			sen1, ok2 := cs(inner.args[2])
+			sen2, ok3 := cs(t.args[1])
+			s2, ok4 := cs(t.args[2])
+			if ok1 && ok2 && ok3 && ok4 && s1 == "$$" && s2 == "$" && sen1 == sen2 && sen1 != "" && !strings.Contains(sen1, "$") && inner.args[0] != nil && inner.args[0].op == "raw" {
 				expanded = u
-				expandCall = mid
+				// the instruction of f at which the expansion happens (the helper call when it is extracted)
+				expandCall = mid.top
 			}
 		}
 		c.Check(expanded != nil, r1, p.FuncKey(f)+":expanded-parse", FirstPos(p, f), "escape, expand, unescape in this order with one sentinel", "the configuration text is not ReplaceAll(ExpandEnv(ReplaceAll(raw,\"$$\",S)),S,\"$\"): $$ does not yield a literal $ or variables are not expanded")
